@@ -37,6 +37,12 @@ Definition handle_exception_waits_for_named_job : bool :=
   has "  exception = self._cache[self._worker_comms.get_exception_thrown_job_id()].get_exception()" handle_exception_body &&
   (index_of "self.terminate()" handle_exception_body <? index_of "raise exception" handle_exception_body).
 
+(* the stored-exception slots of the pool (MAIN_PROCESS / INIT_FUNC / EXIT_FUNC result objects) outlive a call; a
+   call that starts its workers begins with empty slots only because _start_workers resets all three *)
+Definition stored_exceptions_reset_when_workers_start : bool :=
+  has "self._cache[MAIN_PROCESS].reset()" start_workers_body && has "self._cache[INIT_FUNC].reset()" start_workers_body &&
+  has "self._cache[EXIT_FUNC].reset()" start_workers_body.
+
 (* ---- the model ---- *)
 Inductive jid := JMap | JInit | JExit.
 Definition jid_eqb (a b : jid) : bool := match a, b with JMap, JMap | JInit, JInit | JExit, JExit => true | _, _ => false end.
@@ -156,5 +162,9 @@ Definition fstep (s : fst) (a : flabel) : option fst :=
 
 Fixpoint frun (s : fst) (l : list flabel) : fst :=
   match l with [] => s | a :: r => match fstep s a with Some s' => frun s' r | None => frun s r end end.
+(* a call on a pool whose slots hold `stale` (left behind by earlier calls) *)
+Definition finit_stale (stale : jid -> option exc) (scripts : list (list (jid * uout))) : fst :=
+  mkF (map (fun t => mkFW FLoop t) scripts) false JMap []
+      (if stored_exceptions_reset_when_workers_start then fun _ => None else stale) [] FWait [].
 Definition finit (scripts : list (list (jid * uout))) : fst :=
   mkF (map (fun t => mkFW FLoop t) scripts) false JMap [] (fun _ => None) [] FWait [].
